@@ -6,14 +6,20 @@
   The Core components that look into the data graph (sh:class, sh:equals, sh:disjoint, sh:closed) report the same
   results for any two data graphs with the same triples, and every per-value component reports the same results
   for any two focus → value-node maps with the same pairs (consequences of the `_exact` theorems of C01).
-  `…_partial`: invariance of the *complete* run under permutation and blank-node relabelling (composition of
-  these facts through `Shape.validate`, the count-based components, relabelling equivariance) is not proved;
-  the property is decided on the code by the multi-process oracle.
+  `data_graph_order_irrelevant` composes these facts through `Shape.validate` for the data graph: a complete run over
+  two data graphs with the same triples (any insertion order, any multiplicity — hence also any iteration order of the
+  value-node sets computed from them) returns the same verdict and the same results, nested sh:detail lists up to their
+  order (`GraphOrder.lean`: every Core and SPARQL-based component incl. the count-based ones, both loops, nested
+  evaluations, focus resolution; the SPARQL engine's answer tables are parameters, so rdflib's own insensitivity to
+  triple order is assumed, not proved).  Still `…_partial` in the sense of DESIGN.md: the same for the *shapes* graph's
+  triple order, blank-node relabelling and prefix bindings is not proved; abort_on_first and advanced mode are excluded
+  from the theorem.  Those are decided on the code by the multi-process oracle.
 -/
 import PyshaclProofs.InvarianceProofs
 import PyshaclProofs.CoreInvariance
 import PyshaclProofs.FocusSet
 import PyshaclProofs.EvalTransfer
+import PyshaclProofs.GraphOrder
 namespace Pyshacl.C09
 open Pyshacl
 
@@ -63,5 +69,34 @@ theorem focus_order_irrelevant (c : Ctx) (hab : c.o.abortOnFirst = false) (hadv 
     (s : Shape) (fl fl' : List Term) (hm : SameMem fl fl') (path : Option (List PathEntry)) :
     OutSim (validateCore c rec' s fl path) (validateCore c rec' s fl' path) :=
   validateCore_focus_set c hab hadv rec' s fl fl' hm path
+
+/-- **the insertion order (and multiplicity) of the data graph's triples is irrelevant for a complete run** -/
+theorem data_graph_order_irrelevant (o : Opts) (hab : o.abortOnFirst = false) (hadv : o.advanced = false) (sg dg dg' : Graph)
+    (hd : SameTriples dg dg') (rx : Regex) (focus useShapes : List Term) (sq : Term → Term → Option (List Sol))
+    (sqInfo : Term → Option SparqlTemplate) (va : Term → Term → Term → Term → Option ValidatorAnswer) (adv : AdvTables)
+    (conf : Bool) (rs : List Result) (h : runValidate o sg dg rx focus useShapes sq sqInfo va adv = .ok (conf, rs)) :
+    ∃ rs', runValidate o sg dg' rx focus useShapes sq sqInfo va adv = .ok (conf, rs') ∧
+      (∀ r ∈ rs, ∃ r' ∈ rs', Result.Le r r') ∧ (∀ r' ∈ rs', ∃ r ∈ rs, Result.Le r' r) := by
+  obtain ⟨rs', h1, e⟩ := runValidate_dg o hab hadv sg dg dg' hd rx focus useShapes sq sqInfo va adv conf rs h
+  exact ⟨rs', h1, (listLe_iff rs rs').1 e.1, (listLe_iff rs' rs).1 e.2⟩
+
+/-- the same for one constraint component: any permutation of each focus node's value nodes, any data graph with the
+    same triples, nested evaluations related in the same way -/
+theorem component_value_and_graph_order_irrelevant (e : Env) (dg' : Graph) (hd : SameTriples e.dg dg') (rec rec' : Rec)
+    (hR : RecEqv rec rec') (s : Shape) (k : CKind) (fv fv' : FV) (h : FVPerm fv fv') (path : List PathEntry)
+    (hk : k ≠ .expression) :
+    OutEqv (evalConstraint e rec s k fv path) (evalConstraint (e.withDg dg') rec' s k fv' path) :=
+  evalConstraint_eqv e dg' hd rec rec' hR s k fv fv' h path hk
+
+/-! non-vacuity: the same three triples in two orders, one duplicated; a class and a count constraint -/
+def exN (s : String) : Term := .iri ("http://ex.test/" ++ s)
+def sgO : Graph :=
+  [⟨exN "S", rdfType, shNodeShape⟩, ⟨exN "S", sh "targetSubjectsOf", exN "p"⟩, ⟨exN "S", shProperty, exN "P"⟩,
+   ⟨exN "P", shPath, exN "p"⟩, ⟨exN "P", sh "class", exN "C"⟩, ⟨exN "P", sh "maxCount", .lit ⟨"1", xsd "integer", "", .int 1, false⟩⟩]
+def dgO : Graph := [⟨exN "a", exN "p", exN "b"⟩, ⟨exN "a", exN "p", exN "c"⟩, ⟨exN "b", rdfType, exN "C"⟩]
+def dgO' : Graph := [⟨exN "b", rdfType, exN "C"⟩, ⟨exN "a", exN "p", exN "c"⟩, ⟨exN "a", exN "p", exN "b"⟩, ⟨exN "a", exN "p", exN "c"⟩]
+example : SameTriples dgO dgO' := by intro t; simp [dgO, dgO']; tauto
+example : (runValidate {} sgO dgO (fun _ _ _ => none) [] []).toOption.map (fun p => (p.1, p.2.length)) = some (false, 2) := by decide
+example : (runValidate {} sgO dgO' (fun _ _ _ => none) [] []).toOption.map (fun p => (p.1, p.2.length)) = some (false, 2) := by decide
 
 end Pyshacl.C09
